@@ -416,7 +416,7 @@ func (c *c11Reg) httpFuzz() {
 		raw(servers[0], []byte(fmt.Sprintf("POST %s HTTP/1.1\r\nHost: x\r\nTransfer-Encoding: chunked\r\n\r\n5\r\nabc", path)), "chunk-short")
 		raw(servers[0], []byte(fmt.Sprintf("POST %s HTTP/1.0\r\n\r\n", path)), "http10-no-length")
 	}
-	n := vlib.Budget(8000, 120000)
+	n := vlib.Budget(8000, 100000)
 	for i := 0; i < n; i++ {
 		b, kind := c.body(i)
 		srv := servers[c.r.Intn(len(servers))]
@@ -636,7 +636,7 @@ func (c *c11Reg) httpTable() {
 // 2. the processor directly, and what it forwards
 
 func (c *c11Reg) processor() {
-	n := vlib.Budget(10000, 150000)
+	n := vlib.Budget(10000, 120000)
 	for i := 0; i < n; i++ {
 		b, kind := c.body(i)
 		w := &pb.C2SWrapper{}
@@ -1107,7 +1107,7 @@ func TestVerifC11Child(t *testing.T) {
 func (c *c11Reg) dnsChild(t *testing.T) {
 	priv := c.r.Bytes(32)
 	pub := encryption.PubkeyFromPrivkey(priv)
-	c.feedChild(t, priv, c.datagrams(pub, vlib.Budget(10000, 150000)))
+	c.feedChild(t, priv, c.datagrams(pub, vlib.Budget(10000, 120000)))
 }
 
 // feedChild runs the datagrams through the real RecvAndRespond in child processes; a child that dies
@@ -1377,6 +1377,10 @@ func (c *c11Reg) replay(t *testing.T, path string) {
 				fmt.Println("replay: decision-table cases are re-run by the table itself")
 				c.httpTable()
 			}
+			if p[1] == "dnsreq" {
+				fmt.Println("replay: the DNS handler cases are re-run as a whole")
+				c.dnsHandler()
+			}
 			if p[1] == "reghist" {
 				fmt.Println("replay: the registrar histories are re-run as a whole")
 				c.histories()
@@ -1412,5 +1416,6 @@ func TestVerifC11Registrar(t *testing.T) {
 	c.parsers()
 	c.writers()
 	c.dnsDirect()
+	c.dnsHandler()
 	c.dnsChild(t)
 }
